@@ -124,45 +124,101 @@ func recoverWith(hash []byte, r, s *big.Int, recid int) (addr20, bool) {
 	return a, true
 }
 
-// indepSender is the oracle's sender of an account signature over fields for
-// the chain with parameter p.
+// sigRead is the oracle's reading of one account signature over fields for the
+// chain with parameter p.
 //
-// st == sigOK: signer is the only account the chain may charge.
-// st == sigWrongChain: alt is the account that signed the same fields for the
-// chain the V value names (or for no chain at all, legacy 27/28) — the one
-// account this chain must NOT charge; altOK tells whether it exists.
-func indepSender(fields []*item, sg sigTriple, p *big.Int) (signer addr20, st sigStatus, alt addr20, altOK bool) {
+//	st == sigOK:         signer is the only account the chain may charge.
+//	st == sigWrongChain: V names another chain or no chain at all (legacy
+//	                     27/28); alt is the account that signed the same fields
+//	                     for that chain — the one account this chain must NOT
+//	                     charge; altOK tells whether it exists.
+//	st == sigMalleable:  s is in the upper half of the group order: the
+//	                     encoding has a twin (r, N-s, other recovery id) that
+//	                     is the same authorisation. The statement demands that
+//	                     such values are refused whatever V says; twin is the
+//	                     account that authorisation belongs to (in V's class).
+//	st == sigOutOfRange: r or s outside [1, N-1], whatever V says.
+type sigRead struct {
+	st     sigStatus
+	signer addr20
+	alt    addr20
+	altOK  bool
+	legacy bool // V is 27 or 28: no chain parameter was signed
+	other  bool // V is neither this chain's nor the legacy form
+	twin   addr20
+	twinOK bool
+}
+
+// reason is the stable name of a refusal (used in violation keys).
+func (s sigRead) reason() string {
+	if s.st == sigMalleable {
+		switch {
+		case s.legacy:
+			return "malleable-legacy-v"
+		case s.other:
+			return "malleable-other-chain-v"
+		}
+	}
+	return s.st.String()
+}
+
+func readSig(fields []*item, sg sigTriple, p *big.Int) (out sigRead) {
 	base := new(big.Int).Add(big.NewInt(35), new(big.Int).Lsh(p, 1))
 	rec := new(big.Int).Sub(sg.v, base)
-	if !(rec.Sign() == 0 || rec.Cmp(big.NewInt(1)) == 0) {
-		// which chain does V name?
-		switch {
-		case sg.v.Cmp(big.NewInt(27)) == 0 || sg.v.Cmp(big.NewInt(28)) == 0:
-			h := signingHash(fields, nil)
-			alt, altOK = recoverWith(h, sg.r, sg.s, int(sg.v.Int64()-27))
-		case sg.v.Cmp(big.NewInt(35)) >= 0 && sg.v.BitLen() <= 200:
-			q := new(big.Int).Sub(sg.v, big.NewInt(35))
-			recid := int(new(big.Int).And(q, big.NewInt(1)).Int64())
-			q.Rsh(q, 1)
-			h := signingHash(fields, q)
-			alt, altOK = recoverWith(h, sg.r, sg.s, recid)
-		}
-		return addr20{}, sigWrongChain, alt, altOK
-	}
+	own := rec.Sign() == 0 || rec.Cmp(big.NewInt(1)) == 0
+	out.legacy = !own && (sg.v.Cmp(big.NewInt(27)) == 0 || sg.v.Cmp(big.NewInt(28)) == 0)
+	out.other = !own && !out.legacy
+
+	// value ranges come first: they do not depend on what V says
 	if sg.r.Sign() <= 0 || sg.s.Sign() <= 0 || sg.r.Cmp(curveN) >= 0 || sg.s.Cmp(curveN) >= 0 {
-		return addr20{}, sigOutOfRange, addr20{}, false
+		if own || out.legacy {
+			out.st = sigOutOfRange
+			return
+		}
+		out.st = sigWrongChain // nothing recovers for whatever chain V may name
+		return
 	}
-	h := signingHash(fields, p)
-	a, ok := recoverWith(h, sg.r, sg.s, int(rec.Int64()))
-	if sg.s.Cmp(curveHalfN) > 0 {
-		// the twin (r, N-s, other recovery id) is the same authorisation:
-		// the statement demands that this encoding is refused
-		return a, sigMalleable, addr20{}, false
+	highS := sg.s.Cmp(curveHalfN) > 0
+
+	// which hash and recovery id does V name?
+	var h []byte
+	recid := -1
+	switch {
+	case own:
+		h, recid = signingHash(fields, p), int(rec.Int64())
+	case out.legacy:
+		h, recid = signingHash(fields, nil), int(sg.v.Int64()-27)
+	case sg.v.Cmp(big.NewInt(35)) >= 0 && sg.v.BitLen() <= 200:
+		q := new(big.Int).Sub(sg.v, big.NewInt(35))
+		recid = int(new(big.Int).And(q, big.NewInt(1)).Int64())
+		q.Rsh(q, 1)
+		h = signingHash(fields, q)
 	}
-	if !ok {
-		return addr20{}, sigNoKey, addr20{}, false
+	var a addr20
+	ok := false
+	if h != nil {
+		a, ok = recoverWith(h, sg.r, sg.s, recid)
 	}
-	return a, sigOK, addr20{}, false
+	switch {
+	case highS && (own || out.legacy || h != nil):
+		out.st, out.twin, out.twinOK = sigMalleable, a, ok
+	case !own:
+		out.st, out.alt, out.altOK = sigWrongChain, a, ok
+	case !ok:
+		out.st = sigNoKey
+	default:
+		out.st, out.signer = sigOK, a
+	}
+	return
+}
+
+// indepSender is readSig in the form the single-signature kinds use.
+func indepSender(fields []*item, sg sigTriple, p *big.Int) (signer addr20, st sigStatus, alt addr20, altOK bool) {
+	r := readSig(fields, sg, p)
+	if r.st == sigMalleable {
+		return r.twin, r.st, addr20{}, false
+	}
+	return r.signer, r.st, r.alt, r.altOK
 }
 
 // indepSign signs per the statement with btcec (RFC 6979, low s) and returns
